@@ -10,7 +10,8 @@ import AiocoapModel.Blockwise.Server
      b1,b2   value of the Block1/Block2 option as the integer on the wire, `-` if absent
      opts    `_` or `num=hex;num=hex…` (all other options in option_list order)
      payload hex, `-` (empty) or `r<len>.<a>.<b>` (byte i = (a + b·i) mod 256)
-     h*      what the handler answers if it is invoked at this step
+     h*      what the handler answers if it is invoked at this step; hcode `!<code>` = the
+             handler raises an exception that is rendered with that code (hopts/hpayload unused)
    → per step `code|b1|b2|opts|payload|seen`; block options as `num/m/szx`;
      seen = `-` or `H~code~b1~b2~opts~payload` (the request the handler was invoked with)
 `C06 T <T> <op>*`    TimeoutDict; ops `g:<dt>:<k>` `s:<dt>:<k>:<v>` `d:<dt>:<k>` `m:<dt>:<k>:<v>` `w:<dt>`
@@ -71,6 +72,17 @@ structure DStep where
 def parseBool (s : String) : Option Bool :=
   if s = "1" then some true else if s = "0" then some false else none
 
+/-- `<code>` (the handler returns a message) or `!<code>` (it raises) -/
+def parseHCode (s : String) : Option (Bool × Nat) :=
+  match s.toList with
+  | '!' :: rest => (String.ofList rest).toNat?.map (fun c => (true, c))
+  | _ => s.toNat?.map (fun c => (false, c))
+
+/-- the plain options of what the handler returns (none when it raises) -/
+def outcomeOpts : Outcome → List Opt
+  | .ok r => r.opts
+  | .error _ => []
+
 def parseStep (s : String) : Option DStep :=
   match s.splitOn "," with
   | [res, dt, asm, rkey, mps, mszx, code, b1, b2, opts, payload, hcode, hopts, hpayload] => do
@@ -85,13 +97,14 @@ def parseStep (s : String) : Option DStep :=
     let b2 ← parseBlk b2
     let opts ← parseOpts opts
     let payload ← parsePayload payload
-    let hcode ← hcode.toNat?
+    let hcode ← parseHCode hcode
     let hopts ← parseOpts hopts
     let hpayload ← parsePayload hpayload
     let req : Msg := { remote := { key := rkey, maxPayload := mps, maxSzx := mszx }, code := code,
                        opts := opts, block1 := b1, block2 := b2, payload := payload }
-    let resp : Resp := { code := hcode, opts := hopts, block1 := none, block2 := none,
-                         payload := hpayload }
+    let resp : Outcome :=
+      if hcode.1 then .error hcode.2
+      else .ok { code := hcode.2, opts := hopts, block1 := none, block2 := none, payload := hpayload }
     pure { res := res, dt := dt,
            inp := fun now => { now := now, assemble := asm, req := req, render := fun _ => resp } }
   | _ => none
@@ -104,7 +117,7 @@ def stepInModel (d : DStep) : Bool :=
   d.res < 4 && i.req.remote.maxSzx ≤ 7 && isRequestCode i.req.code &&
   !isRequestCode (i.render i.req).code &&
   i.req.opts.all (fun o => o.1 != 23 && o.1 != 27) &&
-  (i.render i.req).opts.all (fun o => o.1 != 23 && o.1 != 27)
+  (outcomeOpts (i.render i.req)).all (fun o => o.1 != 23 && o.1 != 27)
 
 def runSteps (T : Nat) : List RState → Nat → List DStep → List String
   | _, _, [] => []
